@@ -41,6 +41,24 @@ func isGeneratorPkg(p string) bool {
 	return false
 }
 
+// c18AllowedCalls: the per-element calls that were read when the entry in c18Reviewed was written.
+var c18AllowedCalls = map[string][]string{
+	"codegen.BuildData|b.Schema.Types":                                        {"(*codegen.builder).buildInterface", "(*codegen.builder).buildObject"},
+	"codegen.*builder.buildDirectives|b.Schema.Directives":                    {"(*codegen/config.Binder).TypeReference"},
+	"codegen.generatePerSchema|builds":                                        {"codegen/templates.Render"},
+	"codegen.addInterfaces|data.Interfaces":                                   {"codegen.addBuild"},
+	"codegen.addReferencedTypes|data.ReferencedTypes":                         {"codegen.addBuild"},
+	"codegen/config.*Config.injectTypesFromSchema|c.Schema.Types":             {"(codegen/config.TypeMap).Add", "(codegen/config.TypeMap).ForceGenerate"},
+	"codegen/config.TypeMap.ReferencedPackages|tm":                            {"internal/code.QualifyPackagePath"},
+	"codegen/config.*Config.autobind|c.Schema.Types":                          {"(*codegen/config.Config).lookupAutobindType", "(codegen/config.TypeMap).Add"},
+	"internal/imports.Prune|unused":                                           {"golang.org/x/tools/go/ast/astutil.DeleteNamedImport"},
+	"plugin/federation.*Federation.buildEntities|schema.Types":                {"(*plugin/federation.Federation).buildEntity"},
+	"plugin/federation.*Federation.generateExplicitRequires|requiresEntities": {"(*internal/rewrite.Rewriter).GetMethodBody", "(*internal/rewrite.Rewriter).GetMethodComment"},
+	"plugin/modelgen.*Plugin.MutateConfig|cfg.Schema.Types":                   {"(*plugin/modelgen.Plugin).generateFields"},
+	"plugin/modelgen.getExtraFields|modelcfg.ExtraFields":                     {"the function value makeExtraField"},
+	"plugin/resolvergen.*Plugin.generatePerSchema|files":                      {"(*internal/rewrite.Rewriter).ExistingImports", "(*internal/rewrite.Rewriter).RemainingSource", "codegen/templates.Render", "plugin/resolvergen.fileExists"},
+}
+
 // reviewed class-C sites: "<function>|<ranged expression>" -> reason.
 var c18Reviewed = map[string]string{
 	"codegen.BuildData|b.Schema.Types":                               "Objects and Inputs are sorted after the loop, Interfaces is a map keyed by the element; the per-element builders otherwise only extend the Binder's reference list, which buildTypes folds into a map keyed by UniquenessKey (equal keys are built from the same schema/Go type pair and are interchangeable; differing GQL types panic)",
@@ -115,14 +133,43 @@ func runC18(c *Ctx) {
 				key := rel + "." + fname + "|" + expr
 				cls, why := c.classifyMapRange(tp.TypesInfo, rs, stack)
 				pos := c.pos(rs.Pos())
+				effs := ""
+				if i := strings.Index(why, "\x01"); i >= 0 {
+					why, effs = why[:i], why[i+1:]
+				}
 				if reason, ok := c18Reviewed[key]; ok && cls == "" {
-					// a reviewed entry excuses per-element calls; an unsorted append is excused only when the entry says so
+					// a reviewed entry excuses the per-element calls it names; an unsorted append is excused only when the entry says so
 					if strings.HasPrefix(why, "UNSORTED:") && !strings.HasPrefix(reason, "unsorted-ok: ") {
 						c.R.Bad(key, pos, "map iteration order can reach the generated output: "+strings.TrimPrefix(why, "UNSORTED:"))
 						return true
 					}
+					var extra []string
+					if strings.HasPrefix(effs, "EFFECTS:") {
+						for _, e := range strings.Split(strings.TrimPrefix(effs, "EFFECTS:"), "\x00") {
+							callee := e
+							if i := strings.Index(e, " per element"); i > 0 {
+								callee = strings.TrimPrefix(e[:i], "calls ")
+							}
+							allowed := false
+							for _, a := range c18AllowedCalls[key] {
+								if a == callee {
+									allowed = true
+								}
+							}
+							if !allowed {
+								extra = append(extra, e)
+							}
+						}
+					}
+					if len(extra) > 0 {
+						c.R.Bad(key, pos, "this reviewed map range now makes a per-element call that was not part of the review: "+strings.Join(extra, "; ")+" — map iteration order can reach generated output through it")
+						return true
+					}
 					c.R.OK(key, pos, "class C (reviewed): "+strings.TrimPrefix(reason, "unsorted-ok: "))
 					return true
+				}
+				if why == "" && effs != "" {
+					why = strings.ReplaceAll(strings.TrimPrefix(effs, "EFFECTS:"), "\x00", "; ")
 				}
 				why = strings.TrimPrefix(why, "UNSORTED:")
 				switch cls {
@@ -328,16 +375,24 @@ func (c *Ctx) classifyMapRange(info *types.Info, rs *ast.RangeStmt, stack []ast.
 	}
 	ast.Inspect(rs.Body, visit)
 	// every call in the body (also on the right-hand side of assignments and in conditions) must be read-only
+	var effects []string
 	ast.Inspect(rs.Body, func(n ast.Node) bool {
 		call, ok := n.(*ast.CallExpr)
-		if !ok || !insensitive {
+		if !ok {
 			return true
 		}
 		if why2 := c.callEffect(info, call); why2 != "" {
-			insensitive, why = false, why2
+			effects = append(effects, why2)
 		}
 		return true
 	})
+	effectsStr := ""
+	if len(effects) > 0 {
+		sort.Strings(effects)
+		insensitive = false
+		effectsStr = "EFFECTS:" + strings.Join(effects, "\x00")
+	}
+	defer func() { _ = effectsStr }()
 	if len(appended) == 0 && insensitive {
 		return "A", "body only writes maps/locals"
 	}
@@ -395,11 +450,11 @@ func (c *Ctx) classifyMapRange(info *types.Info, rs *ast.RangeStmt, stack []ast.
 			return "B", "appends to " + strings.Join(names, ",") + ", sorted afterwards"
 		}
 		if allSorted && !insensitive {
-			return "", why
+			return "", why + "\x01" + effectsStr
 		}
-		return "", why
+		return "", why + "\x01" + effectsStr
 	}
-	return "", why
+	return "", why + "\x01" + effectsStr
 }
 
 func isConstExpr(info *types.Info, e ast.Expr) bool {
@@ -505,7 +560,16 @@ func (c *Ctx) readOnly(fn *ssa.Function, depth int) string {
 	return res
 }
 
+// reviewed pure functions of the module that the ownership scan cannot see through (they fill a caller-owned buffer through a pointer)
+var pureModuleFuncs = map[string]bool{
+	"github.com/99designs/gqlgen/codegen/templates.ToGo":        true,
+	"github.com/99designs/gqlgen/codegen/templates.ToGoPrivate": true,
+}
+
 func (c *Ctx) readOnly1(fn *ssa.Function, depth int) string {
+	if pureModuleFuncs[fn.String()] {
+		return ""
+	}
 	if len(fn.Blocks) == 0 {
 		n := fn.String()
 		for _, p := range pureExternal {
